@@ -209,6 +209,16 @@ CLAIMED = {
         technique='contracts on the real methods (with-protocol, loop invariant, string terms), pyvc -> z3',
         design_ref='7/C23',
     ),
+    'C22': dict(
+        text='SourceCopier._copy_file_multi_part_main: a file is copied whole once or in ceil(size/part_size) announced parts, and for EVERY part index i the part starts at i*part_size and ends at min((i+1)*part_size, size), non-empty (tiling of [0,size), nonlinear VCs by z3). '
+        '_copy_part (loop invariant): destination part stream created at part_number*part_size, every chunk read at exactly the destination position and written unchanged, exactly this_part_size bytes unless an error is reported; _copy_file (loop invariant): returns only at end of file with every byte written in order. '
+        'Local destination: LocalAsyncFS.create truncates, multi_part_create leaves an empty file whatever was there and hands path/part count on, create_part opens without truncating and seeks to start; RouterAsyncFS forwards unchanged; every copy_part_size is a positive constant. '
+        'Destination rules and documented errors: Transfer.__init__, Copier._dest_type, SourceCopier._full_dest, copy_as_file, the checks of copy_as_dir and the missing-source rule of copy against the decision table of the property text.',
+        note=COMMON_NOTE + 'Byte contents are abstract: positions, lengths and chunk identity are tracked. Assumed: stream read/write contracts (C23 decides the ranged reads), bounded_gather2 runs every thunk once (C20), builtin open() mode semantics, the barrier rely between the two halves of a source. '
+        'Not covered: relative paths below a copied directory (string slicing), report aggregation, lists of transfers, cloud multi-part uploads. Thorough tier adds a BOUNDED native cross-check of the real Copier on temporary files (never counted as proved).',
+        technique='function and loop-invariant contracts on the real coroutines (with-protocol, forked I/O outcomes, one symbolic part index for the gather), pyvc -> z3; native scenarios as witness search',
+        design_ref='7/C22',
+    ),
     'C26': dict(
         text='TimeLimitedMaxSizeCache.lookup split into atomic segments at its awaits, helpers (_put/_remove/_over_capacity/_evict_oldest) inlined from their real bodies; containers as finite maps with maintained cardinality. '
         'Invariant at every await/exit, all schedules, any number of tasks: the three containers agree on keys and size, size <= num_slots, expiry = store time + lifetime, exactly one load in flight per key in _futures. '
